@@ -5,10 +5,12 @@ that no longer fits the shape of the code reports itself as out of reach (NOTE) 
 not report a violation or a broken checker.  Run by hand:  python3 tools/harmless_edits.py"""
 import subprocess, tempfile, shutil, os
 EDITS = [
- ("C15", "graph_operations/multiplication.py", "      for cn in copy_names:\n        self.__clone_segment_and_connections(s, cn)", "      for copy_name in copy_names:\n        self.__clone_segment_and_connections(s, copy_name)"),
+ ("C15", "graph_operations/multiplication.py", "      for cn in copy_names:\n        self.__clone_segment_and_connections(s, cn, copy_names)", "      for copy_name in copy_names:\n        self.__clone_segment_and_connections(s, copy_name, copy_names)"),
  ("C18", "line/common/writer.py", "    if not isinstance(v, str):\n      v = gfapy.Field._to_gfa_field(v, datatype = t, fieldname = fieldname,\n                                  line = self)\n", "    if isinstance(v, str):\n      pass\n    else:\n      v = gfapy.Field._to_gfa_field(v, datatype = t, fieldname = fieldname,\n                                  line = self)\n"),
  ("C13", "line/segment/segment.py", "    n_positionals = len(data)-1\n    for i in range(len(data)-1, 0, -1):\n      if not re.search(r\"^..:.:.*$\", data[i]):\n        break\n      n_positionals = i-1\n", "    n_positionals = len(data)-1\n    i = len(data)-1\n    while i > 0:\n      if not re.search(r\"^..:.:.*$\", data[i]):\n        break\n      n_positionals = i-1\n      i -= 1\n"),
- ("C20", "line/common/field_data.py", "        self._datatype[fieldname] = \\\n            gfapy.Field._get_default_gfa_tag_datatype(value)\n        self._data[fieldname] = value\n", "        self._data[fieldname] = value\n        self._datatype[fieldname] = \\\n            gfapy.Field._get_default_gfa_tag_datatype(value)\n"),
+ ("C20", "line/common/field_data.py", "        self._datatype[fieldname] = datatype\n        self._data[fieldname] = value\n", "        self._data[fieldname] = value\n        self._datatype[fieldname] = datatype\n"),
+ ("C15", "graph_operations/multiplication.py", "      links = self.segment(sn).dovetails_of_end(end_type).copy()\n      for l in links:", "      links_of_member = self.segment(sn).dovetails_of_end(end_type).copy()\n      for l in links_of_member:"),
+ ("C02", "lines/destructors.py", "      subkey = gfa_line.external.name\n      collection = collection[subkey]\n      collection.pop(id(gfa_line))\n      if not collection:\n        self._records[rt].pop(subkey)", "      subkey = gfa_line.external.name\n      fragments = collection[subkey]\n      fragments.pop(id(gfa_line))\n      if len(fragments) == 0:\n        self._records[rt].pop(subkey)"),
  ("C04", "line/edge/gfa2/validation.py", "    for n in [\"1\", \"2\"]:\n      validate_interval", "    for n in [\"2\", \"1\"]:\n      validate_interval"),
  ("C12", "line/edge/link/equivalence.py", "    return (self.from_end == other.from_end and\n            self.to_end == other.to_end and\n            self.overlap == other.overlap)", "    same_ends = (self.from_end == other.from_end and self.to_end == other.to_end)\n    return (same_ends and self.overlap == other.overlap)"),
  ("C16", "graph_operations/topology.py", "    n = 0\n    for s in self.segments:\n      if not s.dovetails_L: n+=1\n      if not s.dovetails_R: n+=1\n    return n", "    n = 0\n    for s in self.segments:\n      if not s.dovetails_R: n+=1\n      if not s.dovetails_L: n+=1\n    return n"),
